@@ -6,6 +6,7 @@ import (
 	"errors"
 	"fmt"
 	"io"
+	"time"
 
 	"github.com/markkurossi/mpc/zverif/csched"
 )
@@ -21,12 +22,24 @@ type addr string
 func (a addr) Network() string { return "tcp" }
 func (a addr) String() string  { return string(a) }
 
-// Conn mirrors net.Conn (the subset used).
+// Conn mirrors net.Conn.
 type Conn interface {
 	io.ReadWriteCloser
 	LocalAddr() Addr
 	RemoteAddr() Addr
+	SetDeadline(t time.Time) error
+	SetReadDeadline(t time.Time) error
+	SetWriteDeadline(t time.Time) error
 }
+
+// ErrDeadline is what a Read returns after its deadline passed (mirrors os.ErrDeadlineExceeded: Timeout() is true).
+var ErrDeadline error = timeoutError{}
+
+type timeoutError struct{}
+
+func (timeoutError) Error() string   { return "i/o timeout" }
+func (timeoutError) Timeout() bool   { return true }
+func (timeoutError) Temporary() bool { return true }
 
 // Listener mirrors net.Listener.
 type Listener interface {
@@ -58,7 +71,38 @@ type End struct {
 	nwritten int64
 	local    string
 	remote   string
+	// read deadline on the scheduler's virtual clock: rdTimer fires when virtual time reaches it (only when no
+	// thread can run, see csched.AddTimer) and sets rdExpired
+	rdTimer   *csched.Timer
+	rdExpired bool
 }
+
+// SetReadDeadline mirrors net.Conn.SetReadDeadline. The deadline is given in real time by the code under test
+// (time.Now().Add(d)); it is converted to the distance from now and kept on the virtual clock.
+func (e *End) SetReadDeadline(t time.Time) error {
+	csched.SchedPoint("set-deadline", e.id, nil)
+	if e.rdTimer != nil {
+		e.rdTimer.Stop()
+		e.rdTimer = nil
+	}
+	e.rdExpired = false
+	if t.IsZero() {
+		return nil
+	}
+	d := time.Until(t)
+	if d <= 0 {
+		e.rdExpired = true
+		return nil
+	}
+	e.rdTimer = csched.AddTimer(int64(d), func() { e.rdExpired = true })
+	return nil
+}
+
+// SetWriteDeadline mirrors net.Conn.SetWriteDeadline (writes never block here).
+func (e *End) SetWriteDeadline(t time.Time) error { return nil }
+
+// SetDeadline mirrors net.Conn.SetDeadline.
+func (e *End) SetDeadline(t time.Time) error { return e.SetReadDeadline(t) }
 
 var world struct {
 	listeners map[string]*listener
@@ -100,10 +144,13 @@ func (e *End) Read(p []byte) (int, error) {
 	if len(p) == 0 {
 		return 0, nil
 	}
-	csched.SchedPoint("read", e.id, func() bool { return len(e.buf) > 0 || e.closed || e.peer.closed })
+	csched.SchedPoint("read", e.id, func() bool { return len(e.buf) > 0 || e.closed || e.peer.closed || e.rdExpired })
 	if len(e.buf) == 0 {
 		if e.closed {
 			return 0, ErrClosed
+		}
+		if e.rdExpired && !e.peer.closed {
+			return 0, ErrDeadline
 		}
 		return 0, io.EOF
 	}
